@@ -42,7 +42,8 @@ DEFAULTS = ['0', '1', '-1', '1.5', '-9.81', '1e-9', 'true', 'false', 'nullptr', 
             'a::B<int, double>()', 'Foo::kDefault', '(1 + 2)', 'x[0]', '"(unbalanced"',
             '"} ;"', '"it\'s"', 'gtsam::Vector3(1, 2, 3)', '1 + 2', 'Kind::Dog', '[](int){}',
             'std::map<int, std::vector<double>>()', '-x', '"<"', 'T()', 'sizeof(int)',
-            '"/path/x"', '0.', 'a.b', '&g', '!flag']
+            '"/path/x"', '0.', 'a.b', '&g', '!flag', "'('", "')'", "','", "';'", "'{'", "'\"'",
+            '"("', '")"', '","', '";"', '"{"', "'<'", '"]"', "'['"]
 HEADERS = ['gtsam/geometry/Point2.h', 'vector', 'a/b-c.hpp', 'x.h', 'path with space/y.h',
            'gtsam/base/Matrix.h']
 
@@ -77,6 +78,11 @@ class Profile:
     same_name_other_ns: bool = True
     defaults: bool = True
     typedef_needs_target: bool = False
+    template_modes: Tuple[str, ...] = ('all', 'all', 'all', 'none', 'mixed')
+    class_template_odds: int = 3      # 1 in (odds+1) classes is a template
+    member_template_odds: int = 5
+    move_typedefs: bool = True        # typedefs may precede their template
+    scoped_needs_plain_arg: bool = False
 
 
 DIALECT = Profile()
@@ -92,6 +98,7 @@ class Decl:
     nparams: int = 0
     virtual: bool = False
     has_lists: bool = False
+    scoped: bool = False  # some member uses T::X
 
 
 class Ctx:
@@ -101,6 +108,7 @@ class Ctx:
         self.enums: List[Tuple[Tuple[str, ...], Optional[str], str]] = []
         self.used = {}  # path -> set of names declared in that scope
         self.lower_classes = set()
+        self.scoped_ok = set()  # template parameters that may be used as T::X
 
     def names(self, path):
         return self.used.setdefault(path, set())
@@ -149,12 +157,14 @@ def types(draw, ctx: Ctx, depth: int, tparams: Sequence[str] = (), qualifiers=Tr
     cats = ['basic', 'basic', 'custom']
     if prof.foreign_types:
         cats.append('foreign')
+    scoped_cands = [p for p in tparams
+                    if not prof.scoped_needs_plain_arg or p in ctx.scoped_ok]
     if tparams:
-        cats += ['tparam', 'tparam']
-        if depth > 1:
-            cats.append('scoped')
+        cats += ['tparam'] * 4
+        if depth > 1 and scoped_cands:
+            cats += ['scoped'] * 2
     if depth > 1 and templated:
-        cats += ['templated', 'templated']
+        cats += ['templated'] * (4 if tparams else 2)
     if this and prof.this_type:
         cats.append('this')
     if numbers and inner:
@@ -180,8 +190,11 @@ def types(draw, ctx: Ctx, depth: int, tparams: Sequence[str] = (), qualifiers=Tr
     elif cat == 'tparam':
         name = draw(st.sampled_from(list(tparams)))
     elif cat == 'scoped':
-        ns = (draw(st.sampled_from(list(tparams))),)
-        name = draw(st.sampled_from(['Value', 'Type', 'Jacobian', 'shared_ptr', 'T', 'Traits']))
+        ns = (draw(st.sampled_from(scoped_cands)),)
+        inner_names = ['Value', 'Type', 'Jacobian', 'shared_ptr', 'T', 'Traits']
+        if findings.is_open('F-21-qualified-name-equals-param'):
+            inner_names = [n for n in inner_names if n not in tparams]
+        name = draw(st.sampled_from(inner_names))
     elif cat == 'this':
         if draw(st.booleans()):
             name = 'This'
@@ -243,12 +256,17 @@ def templates(draw, ctx: Ctx, used=(), force_lists=None, max_params=None):
     prof = ctx.prof
     n = draw(st.integers(1, prof.max_tparams if max_params is None else max_params))
     names = []
+    used = set(used)
+    if findings.is_open('F-21-qualified-name-equals-param'):
+        # no declared or foreign type may be spelled like a parameter (ns::A with parameter A)
+        used |= {d.name for d in ctx.decls} | {n_ for _, n_ in FOREIGN_TYPES} | \
+            {n_ for _, n_, _ in FOREIGN_TEMPLATES} | {e[2] for e in ctx.enums} | \
+            {c for pth in ctx.used for c in pth} | set(NS_POOL)
     for _ in range(n):
         nm = draw(tparam_name(set(used) | set(names)))
         names.append(nm)
     if force_lists is None:
-        mode = draw(st.sampled_from(['all', 'all', 'all', 'none'] +
-                                    (['mixed'] if prof.mixed_template_lists and n > 1 else [])))
+        mode = draw(st.sampled_from([m for m in prof.template_modes if m != 'mixed' or n > 1]))
     else:
         mode = 'all' if force_lists else 'none'
     qual = not findings.is_open('F-17-inst-qualifiers')
@@ -260,8 +278,10 @@ def templates(draw, ctx: Ctx, used=(), force_lists=None, max_params=None):
             k = draw(st.integers(1, prof.max_insts))
             lst = []
             for _ in range(k):
-                lst.append(draw(types(ctx, 2, (), qualifiers=qual, numbers=True,
-                                      templated=True, top_qualifiers=False)))
+                x = draw(types(ctx, 2, (), qualifiers=qual, numbers=True,
+                               templated=True, top_qualifiers=False))
+                if x not in lst:  # an instantiation list names each type once
+                    lst.append(x)
             insts = tuple(lst)
         params.append(M.TParam(nm, insts))
     return M.Template(tuple(params))
@@ -297,9 +317,12 @@ def classes(draw, ctx: Ctx, path: Tuple[str, ...]):
     used.add(name)
     ctx.lower_classes.add(name.lower())
     template = None
-    if prof.templates and draw(st.integers(0, 3)) == 0:
+    if prof.templates and draw(st.integers(0, prof.class_template_odds)) == 0:
         template = draw(templates(ctx))
     ctp = tuple(template.names()) if template else ()
+    class_ok = {p.name for p in template.params if not any(i.targs for i in p.insts)} \
+        if template else set()
+    ctx.scoped_ok = set(class_ok)
     virtual = draw(st.booleans()) and draw(st.booleans())
     parent = None
     if prof.parents and draw(st.integers(0, 3)) == 0:
@@ -327,16 +350,19 @@ def classes(draw, ctx: Ctx, path: Tuple[str, ...]):
     kinds.append('dunder')
     for _ in range(n):
         k = draw(st.sampled_from(kinds))
+        ctx.scoped_ok = set(class_ok)
         if k == 'ctor':
             mt = None
-            if prof.templates and draw(st.integers(0, 5)) == 0:
+            if prof.templates and draw(st.integers(0, prof.member_template_odds)) == 0:
                 mt = draw(templates(ctx, used=ctp, force_lists=True, max_params=2))
+                ctx.scoped_ok |= {p.name for p in mt.params if not any(i.targs for i in p.insts)}
             tps = ctp + (tuple(mt.names()) if mt else ())
             members.append(M.Ctor(name, draw(arg_lists(ctx, tps, this=True)), mt))
         elif k in ('method', 'static'):
             mt = None
-            if prof.templates and draw(st.integers(0, 5)) == 0:
+            if prof.templates and draw(st.integers(0, prof.member_template_odds)) == 0:
                 mt = draw(templates(ctx, used=ctp, force_lists=True, max_params=2))
+                ctx.scoped_ok |= {p.name for p in mt.params if not any(i.targs for i in p.insts)}
             tps = ctp + (tuple(mt.names()) if mt else ())
             mname = draw(lower_name(mnames, prop_names | {name}))
             r = draw(rets(ctx, tps, this=True))
@@ -382,8 +408,10 @@ def classes(draw, ctx: Ctx, path: Tuple[str, ...]):
                 a = draw(arg_lists(ctx, ctp, max_args=1, min_args=1)) if dn == 'contains' else ()
                 members.append(M.Dunder(dn, a))
     has_lists = bool(template) and all(p.insts for p in template.params)
-    ctx.decls.append(Decl(path, name, 'class', len(ctp), virtual, has_lists))
-    return M.Class(name, tuple(members), template, virtual, parent)
+    cls = M.Class(name, tuple(members), template, virtual, parent)
+    scoped = any(t2.ns and t2.ns[0] in ctp for t in M.all_types(cls) for t2 in t.walk())
+    ctx.decls.append(Decl(path, name, 'class', len(ctp), virtual, has_lists, scoped))
+    return cls
 
 
 @st.composite
@@ -391,19 +419,23 @@ def functions(draw, ctx: Ctx, path):
     prof = ctx.prof
     used = ctx.names(path)
     template = None
-    if prof.templates and draw(st.integers(0, 3)) == 0:
+    if prof.templates and draw(st.integers(0, prof.class_template_odds)) == 0:
         template = draw(templates(ctx, max_params=2))
     tps = tuple(template.names()) if template else ()
+    ctx.scoped_ok = {p.name for p in template.params if not any(i.targs for i in p.insts)} \
+        if template else set()
     pool = FUNC_POOL + (PY_KEYWORDS[:6] + ['print'] if prof.py_keyword_names else [])
     classes_here = {d.name for d in ctx.decls if d.path == path}
     name = draw(lower_name(pool, classes_here))
     r = draw(rets(ctx, tps))
     a = draw(arg_lists(ctx, tps))
+    fn = M.Func(r, name, a, template)
     if template and not any(d.name == name and d.path == path for d in ctx.decls):
+        scoped = any(t2.ns and t2.ns[0] in tps for t in M.all_types(fn) for t2 in t.walk())
         ctx.decls.append(Decl(path, name, 'func', len(tps), False,
-                              all(p.insts for p in template.params)))
+                              all(p.insts for p in template.params), scoped))
         used.add(name)
-    return M.Func(r, name, a, template)
+    return fn
 
 
 @st.composite
@@ -412,6 +444,9 @@ def typedefs(draw, ctx: Ctx, path):
     used = ctx.names(path)
     targets = [d for d in ctx.decls if d.nparams > 0 and
                [x for x in ctx.decls if x.name == d.name and x.path == d.path] == [d]]
+    if findings.is_open('F-7-typedef-after-namespace'):
+        # the template's namespace must enclose (or be) the typedef's namespace
+        targets = [d for d in targets if d.path == path[:len(d.path)]]
     if targets:
         d = draw(st.sampled_from(targets))
         ns, nm, n = d.path, d.name, d.nparams
@@ -420,8 +455,9 @@ def typedefs(draw, ctx: Ctx, path):
     else:
         ns, nm, n = draw(st.sampled_from(FOREIGN_TEMPLATES))
     qual = not findings.is_open('F-17-inst-qualifiers')
-    targs = tuple(draw(types(ctx, 2, (), qualifiers=qual, numbers=True, inner=True,
-                             top_qualifiers=qual))
+    plain = prof.scoped_needs_plain_arg and targets and d.scoped
+    targs = tuple(draw(types(ctx, 1 if plain else 2, (), qualifiers=qual, numbers=True,
+                             inner=True, top_qualifiers=qual))
                   for _ in range(n))
     new = draw(class_name(used).filter(
         lambda s: not prof.unique_lower_class_names or s.lower() not in ctx.lower_classes))
@@ -502,6 +538,11 @@ def contents(draw, ctx: Ctx, path: Tuple[str, ...], depth_left: int, max_items=N
             nm = draw(lower_name(NS_POOL, used))  # a namespace is opened once per scope
             used.add(nm)
             out.append(M.Namespace(nm, draw(contents(ctx, path + (nm,), depth_left - 1))))
+    if prof.move_typedefs:
+        for i in range(len(out)):
+            if isinstance(out[i], M.Typedef) and i > 0 and draw(st.integers(0, 2)) == 0:
+                j = draw(st.integers(0, i - 1))
+                out.insert(j, out.pop(i))
     return tuple(out)
 
 
